@@ -140,6 +140,7 @@ type TemplateProgram struct {
 	ParentKey       string // "parent" (composite) or "object" (decorator)
 	ChildrenKey     string // "children" or "attachments"
 	Kinds           []*Resource
+	StaticIdx       map[int]bool // children (by index) whose content does not depend on the parent's template
 	Ordered         bool   // child i is desired only once child i-1 was observed
 	NeedReady       bool   // ... and observed Ready
 	Derived         bool   // second kind: one per observed child of the first kind
@@ -182,6 +183,11 @@ func (tp *TemplateProgram) desiredChild(parent Object, r *Resource, name, ns str
 	spec := getMap(parent, "spec")
 	tpl := getMap(spec, "template")
 	content := Object{"idx": int64(idx)}
+	if tp.StaticIdx != nil && tp.StaticIdx[idx] {
+		// a child that does not depend on the template: the same in every revision
+		tpl = nil
+		content["static"] = true
+	}
 	for _, k := range sortedKeys(tpl) {
 		if k == "metadata" {
 			continue
